@@ -1698,7 +1698,13 @@ class AbsInt:
             if fn is not None:
                 r = self.call_function(fn, [it], {}, node)
                 if r is not it:
+                    if isinstance(r, AObj) and r.cls is not None and self.p.lookup_method(r.cls, '__next__')[1] is None:
+                        # iter() returned non-iterator
+                        raise AbsRaise('TypeError', node, implicit=True, msg=f'iter() returned non-iterator of type {r.cls.name}')
                     return self.iterate(r, node, keep_vars)
+            elif self.p.lookup_method(it.cls, '__getitem__')[1] is None and not any(
+                    k.name in ('tuple', 'list', 'dict', 'set', 'frozenset', 'str', 'bytes', 'deque') for k in self.p.mro(it.cls)):
+                raise AbsRaise('TypeError', node, implicit=True, msg=f'{it.cls.name} object is not iterable')
         if isinstance(it, (list, tuple, set, frozenset, dict, range, str, bytes)):
             if isinstance(it, (set, frozenset)):
                 try:
